@@ -3,7 +3,7 @@
 From Coq Require Import QArith Qcanon List String.
 From Coq Require Extraction ExtrOcamlBasic ExtrOcamlString.
 From S2 Require Import Base.Num Base.Arr Model.Expr Model.Struct Model.Rates Model.InitPop
-     Model.Solvers Model.Derived Model.Run Model.Program Model.Api Model.Trace Gen.TraceGen.
+     Model.Solvers Model.Derived Model.Run Model.Program Model.Api Model.Trace Model.Adaptive Gen.TraceGen.
 
 Definition q_this (x : Qc) : Q := this x.
 
@@ -11,4 +11,5 @@ Extraction "summer_model.ml"
   build build_ok one_step run_model initial_population env_of eval QcOps q_this Q2Qc
   query_compartments query_flows serialize num_times
   steps init_api
+  rk_step get_comp_rates prepare_structural
   ev k_binary_search_sum_ge k_piecewise_constant k_linear_curve_at_x k_interpolate_linear k_clean_compartments.
